@@ -13,6 +13,7 @@ import (
 	"os"
 	"os/exec"
 	"path/filepath"
+	"strconv"
 	"strings"
 	"sync"
 	"sync/atomic"
@@ -527,3 +528,161 @@ type teeWriter struct {
 
 func (t teeWriter) Write(p []byte) (int, error) { t.f.Write(p); return t.w.Write(p) }
 func (t teeWriter) Close() error                { t.f.Close(); return t.w.Close() }
+
+// groundBool evaluates a closed term over integer literals, comparisons and boolean connectives.
+// ok=false when the term mentions anything else. Used to short-circuit contract expressions whose
+// guard is decided by the path (ghost call counters are concrete per path).
+func groundBool(t string) (val bool, ok bool) {
+	v, rest, ok := groundEval(strings.TrimSpace(t))
+	if !ok || strings.TrimSpace(rest) != "" {
+		return false, false
+	}
+	b, isB := v.(bool)
+	return b, isB
+}
+
+func groundEval(s string) (interface{}, string, bool) {
+	s = strings.TrimLeft(s, " \n\t")
+	if s == "" {
+		return nil, s, false
+	}
+	if s[0] != '(' {
+		i := 0
+		for i < len(s) && s[i] != ' ' && s[i] != ')' && s[i] != '(' {
+			i++
+		}
+		tok := s[:i]
+		switch tok {
+		case "true":
+			return true, s[i:], true
+		case "false":
+			return false, s[i:], true
+		}
+		n, err := strconv.ParseInt(tok, 10, 64)
+		if err != nil {
+			return nil, s, false
+		}
+		return n, s[i:], true
+	}
+	s = strings.TrimLeft(s[1:], " ")
+	i := 0
+	for i < len(s) && s[i] != ' ' && s[i] != ')' {
+		i++
+	}
+	op := s[:i]
+	s = s[i:]
+	var args []interface{}
+	for {
+		s = strings.TrimLeft(s, " \n\t")
+		if s == "" {
+			return nil, s, false
+		}
+		if s[0] == ')' {
+			s = s[1:]
+			break
+		}
+		v, rest, ok := groundEval(s)
+		if !ok {
+			return nil, s, false
+		}
+		args = append(args, v)
+		s = rest
+	}
+	ints := func() ([]int64, bool) {
+		var r []int64
+		for _, a := range args {
+			n, ok := a.(int64)
+			if !ok {
+				return nil, false
+			}
+			r = append(r, n)
+		}
+		return r, true
+	}
+	bools := func() ([]bool, bool) {
+		var r []bool
+		for _, a := range args {
+			b, ok := a.(bool)
+			if !ok {
+				return nil, false
+			}
+			r = append(r, b)
+		}
+		return r, true
+	}
+	switch op {
+	case "+", "-", "*":
+		n, ok := ints()
+		if !ok || len(n) == 0 {
+			return nil, s, false
+		}
+		if op == "-" && len(n) == 1 {
+			return -n[0], s, true
+		}
+		acc := n[0]
+		for _, v := range n[1:] {
+			switch op {
+			case "+":
+				acc += v
+			case "-":
+				acc -= v
+			case "*":
+				acc *= v
+			}
+		}
+		return acc, s, true
+	case "<", "<=", ">", ">=", "=":
+		if op == "=" {
+			if b, ok := bools(); ok && len(b) == 2 {
+				return b[0] == b[1], s, true
+			}
+		}
+		n, ok := ints()
+		if !ok || len(n) != 2 {
+			return nil, s, false
+		}
+		switch op {
+		case "<":
+			return n[0] < n[1], s, true
+		case "<=":
+			return n[0] <= n[1], s, true
+		case ">":
+			return n[0] > n[1], s, true
+		case ">=":
+			return n[0] >= n[1], s, true
+		}
+		return n[0] == n[1], s, true
+	case "not":
+		b, ok := bools()
+		if !ok || len(b) != 1 {
+			return nil, s, false
+		}
+		return !b[0], s, true
+	case "and", "or", "=>":
+		b, ok := bools()
+		if !ok || len(b) == 0 {
+			return nil, s, false
+		}
+		switch op {
+		case "and":
+			for _, v := range b {
+				if !v {
+					return false, s, true
+				}
+			}
+			return true, s, true
+		case "or":
+			for _, v := range b {
+				if v {
+					return true, s, true
+				}
+			}
+			return false, s, true
+		}
+		if len(b) != 2 {
+			return nil, s, false
+		}
+		return !b[0] || b[1], s, true
+	}
+	return nil, s, false
+}
